@@ -299,6 +299,10 @@ class UnscentedKalmanFilter(KalmanFilter):
         # STEP 0: Re-sample the sigma points around predicted (sampled) state estimate
         if self._resample:
             self.sigma_points = self.generateSigmaPoints(self.pred_x, self.pred_p)
+            # The state residuals must belong to the re-drawn sigma points, otherwise the cross covariance
+            # pairs residuals of the old (propagated) set with measurement residuals of the new one
+            # (the first sigma point is the mean the set was drawn around)
+            self.sigma_x_res = self.sigma_points - self.sigma_points[:, :1]
 
         # STEP 1: Calculate the Measurement Matrix (H)
         self.calculateMeasurementMatrix(observations)
